@@ -150,7 +150,8 @@ Definition apply_batch_op (o:batch_op) (s:bstate) : bres bstate :=
   | OAlterColumn k a =>
       match aget k (b_cols s), aget k (b_tr s) with
       | Some c, Some t =>
-          let renamed := match al_name a with Some n => negb (name_eqb n k) | None => false end in
+          (* `if name is not None and name != existing.name` (the column's CURRENT name) *)
+          let renamed := match al_name a with Some n => negb (name_eqb n (c_name c)) | None => false end in
           let c1 := if renamed then mkCol (match al_name a with Some n => n | None => c_name c end) (c_ty c) (c_nullable c) (c_default c) else c in
           let t1 := if renamed then mkTr (tr_expr t) (al_name a) else t in
           (* type_: cast_for_batch_migrate wraps the transfer expression when the affinities differ *)
